@@ -259,6 +259,37 @@ Theorem C18_kept_errors_were_seen : forall retries keep pre first steps fe,
 Proof. exact run_kept_seen. Qed.
 Print Assumptions C18_kept_errors_were_seen.
 
+(* ================================================================== configuration -> pauses -> deadline *)
+
+(* RetryWithCtx gets the CONFIGURED BackOff/Max (retry_run_cfg, to_steps): every pause the loop asks
+   for is in [0, Max in force], and is at most the configured Max whenever a positive Max is
+   configured — also for Max < BackOff, Max = BackOff, huge BackOff *)
+Theorem C18_loop_pauses_bounded : forall ts cfg n w,
+  in_int64 (c_backoff cfg) -> in_int64 (c_max cfg) ->
+  Forall (fun t => 0 <= t_draw t) ts ->
+  In w (pauses cfg n ts) ->
+  0 <= w <= norm_max (c_max cfg) /\ (0 < c_max cfg -> w <= c_max cfg).
+Proof. exact cfg_pauses_bounded. Qed.
+Print Assumptions C18_loop_pauses_bounded.
+
+(* the deadline pre-check of iteration k stops the call exactly when that pause is longer than
+   the time left until the deadline *)
+Theorem C18_deadline_precheck : forall ts cfg n k t,
+  nth_error ts k = Some t ->
+  (nth_error (to_steps cfg n ts) k = Some StExceeds <->
+   exists d, t_remaining t = Some d /\ d < pause_of cfg (n + Z.of_nat k) (t_draw t)).
+Proof. exact cfg_exceeds_iff. Qed.
+Print Assumptions C18_deadline_precheck.
+
+(* hence a deadline at least the configured Max away never ends the retries early *)
+Theorem C18_far_deadline_never_stops : forall ts cfg n k t d,
+  in_int64 (c_backoff cfg) -> in_int64 (c_max cfg) ->
+  nth_error ts k = Some t -> 0 <= t_draw t ->
+  t_remaining t = Some d -> norm_max (c_max cfg) <= d ->
+  nth_error (to_steps cfg n ts) k = Some (ev_step (t_ev t)).
+Proof. exact cfg_far_deadline. Qed.
+Print Assumptions C18_far_deadline_never_stops.
+
 (* ================================================================== non-vacuity *)
 
 (* Quick = {50ms, 30s}: the 10th pause without jitter is 25.6s, the 11th is capped at 30s;
@@ -283,3 +314,14 @@ Example C18_example_run :
   exists fe, res R = RetErr fe /\ main fe = ECtx Canceled /\ length (others fe) = 2%nat /\
              ferr_is fe (ECtx Canceled) = true /\ ferr_is fe ERetriesExceeded = false.
 Proof. vm_compute. split; [reflexivity|]. eexists. repeat split; reflexivity. Qed.
+
+(* BackOff = 2h, Max = 2ms, deadline 1h away: all three runs happen and the limit ends the call;
+   with no Max configured the first pause (2h) does not fit and the call ends after one run *)
+Example C18_example_max_below_backoff :
+  let h := 3600000000000 in
+  let evs := [(0, WRun (Rec 1%nat)); (0, WRun (Rec 2%nat)); (0, WRun Ok)] in
+  let run mx := let cfg := mkCfg (2 * h) mx false in
+                retry_run_cfg cfg 3 2 None (Rec 0%nat) (sched cfg (Some h) 1 0 evs) in
+  (runs (run 2000000) = 3%nat /\ exists fe, res (run 2000000) = RetErr fe /\ main fe = ERetriesExceeded) /\
+  (runs (run 0) = 1%nat /\ exists fe, res (run 0) = RetErr fe /\ main fe = EWaitExceedsDeadline).
+Proof. vm_compute. repeat split; try reflexivity; eexists; split; reflexivity. Qed.
